@@ -1,0 +1,76 @@
+//go:build verif
+
+package controller
+
+import (
+	"sort"
+
+	"k8s.io/apimachinery/pkg/types"
+
+	"istio.io/istio/pilot/pkg/model"
+	"istio.io/istio/pkg/queue"
+)
+
+// Verification hooks for property C15 (add-only, build tag verif).
+
+// VerifSetQueue replaces the controller's work queue. Must be called before the informers are started.
+func (c *Controller) VerifSetQueue(q queue.Instance) { c.queue = q }
+
+// VerifTapRequeue reports every endpoint-slice key that PodCache.addPod re-queues, in push order.
+func (c *Controller) VerifTapRequeue(f func(types.NamespacedName)) {
+	orig := c.pods.queueEndpointEvent
+	c.pods.queueEndpointEvent = func(k types.NamespacedName) {
+		f(k)
+		orig(k)
+	}
+}
+
+// VerifPodCacheDump is a sorted copy of the PodCache maps.
+type VerifPodCacheDump struct {
+	PodsByIP   map[string][]string
+	IPByPods   map[string]string
+	NeedResync map[string][]string
+}
+
+func (c *Controller) VerifPodCache() VerifPodCacheDump {
+	pc := c.pods
+	pc.RLock()
+	defer pc.RUnlock()
+	out := VerifPodCacheDump{PodsByIP: map[string][]string{}, IPByPods: map[string]string{}, NeedResync: map[string][]string{}}
+	for ip, s := range pc.podsByIP {
+		l := []string{}
+		for k := range s {
+			l = append(l, k.Namespace+"/"+k.Name)
+		}
+		sort.Strings(l)
+		out.PodsByIP[ip] = l
+	}
+	for k, ip := range pc.ipByPods {
+		out.IPByPods[k.Namespace+"/"+k.Name] = ip
+	}
+	for ip, s := range pc.needResync {
+		l := []string{}
+		for k := range s {
+			l = append(l, k.Namespace+"/"+k.Name)
+		}
+		sort.Strings(l)
+		out.NeedResync[ip] = l
+	}
+	return out
+}
+
+// VerifSliceCache returns a copy of endpointSliceCache.endpointsByServiceAndSlice (hostname -> slice -> endpoints).
+func (c *Controller) VerifSliceCache() map[string]map[string][]*model.IstioEndpoint {
+	ec := c.endpoints.endpointCache
+	ec.mu.RLock()
+	defer ec.mu.RUnlock()
+	out := map[string]map[string][]*model.IstioEndpoint{}
+	for h, m := range ec.endpointsByServiceAndSlice {
+		mm := map[string][]*model.IstioEndpoint{}
+		for s, eps := range m {
+			mm[s] = append([]*model.IstioEndpoint(nil), eps...)
+		}
+		out[string(h)] = mm
+	}
+	return out
+}
